@@ -172,7 +172,11 @@ func drawSValue(t *rapid.T) expr.Expr {
 func drawSAddr(t *rapid.T) expr.Expr {
 	off := uint64(rapid.IntRange(0, 24).Draw(t, "aoff"))
 	if rapid.IntRange(0, 2).Draw(t, "areg") == 0 {
-		return expr.NewBinary(expr.Add, expr.NewRegLoad(drawSReg(t, "abase"), 8), c64(off), 8)
+		// window + off + (reg & 0x1f): register dependent, but never near the end
+		// of the address space (ranges wrapping 2^64 are outside every property)
+		r := expr.NewRegLoad(drawSReg(t, "abase"), 1)
+		masked := expr.NewBinary(expr.Nand, expr.NewBinary(expr.Nand, r, expr.ConstFromUint[uint8](0x1f), 1), expr.ConstFromUint[uint8](0xff), 1)
+		return expr.NewBinary(expr.Add, c64(synthWindow+off), masked, 8)
 	}
 	return c64(synthWindow + off)
 }
